@@ -254,7 +254,7 @@ func TestC19Main(t *testing.T) {
 		var done []string
 		for e := 0; e < nEdits; e++ {
 			what := rapid.SampledFrom([]string{"agreement", "agreement", "board"}).Draw(rt, fmt.Sprintf("what%d", e))
-			broken := rapid.SampledFrom([]string{"", "", "banlist", "news"}).Draw(rt, fmt.Sprintf("unloadable%d", e))
+			broken := rapid.SampledFrom([]string{"banlist", "news", "", ""}).Draw(rt, fmt.Sprintf("unloadable%d", e))
 			size := rapid.SampledFrom([]int{20, 600, 33000}).Draw(rt, fmt.Sprintf("size%d", e))
 			text := bytes.Repeat([]byte(fmt.Sprintf("edition %d of the %s\r", e+1, what)), size/20+1)[:size]
 			file := map[string]string{"agreement": "Agreement.txt", "board": "MessageBoard.txt"}[what]
